@@ -255,9 +255,14 @@ def obs_summary(st, ob):
     args = set(st["args"])
     share = set()
     cross = False
-    for rf, name, of in ob.get("result_shares", []):
+    rs = [tuple(x) for x in ob.get("result_shares", [])]
+    # result slots that share a buffer with the same field of an operand (what a signature may declare)
+    via_operand = {(rf, slot) for rf, name, of, slot in rs if name in args and rf == of}
+    for rf, name, of, slot in rs:
         if name in args and rf == of:
             share.add(rf)
+        elif rf == of and (rf, slot) in via_operand:
+            pass        # the operand's buffer is also held by another object (sharing declared earlier): transitive
         else:
             cross = True
     if ob.get("result_is_input"):
@@ -357,7 +362,7 @@ def apply_declared_sharing(p, r, declared):
     edges = set()
     excused = []
     for st, ob in zip(p["steps"], r["steps"]):
-        for rf, name, of in ob.get("result_shares", []):
+        for rf, name, of, _slot in ob.get("result_shares", []):
             if rf == "site" and of == "site" and st["res"] and name in st["args"] and declared.get((p["world"], st["model"])):
                 edges.add(frozenset((st["res"], name)))
         if st["model"] == "PokeSites" and st["target"] and edges:
@@ -404,6 +409,15 @@ def run(ctx):
     else:
         ctx.obligations.append({"name": "C13 (build of Gen/EvolveEntry.v + Model/Heap.v + Proofs/HeapProofs.v)",
                                 "file": "Proofs/HeapProofs.v", "ok": False, "assumptions": None})
+    if ok_props and not quick:
+        # thorough tier: independent re-check of the compiled property file
+        rc_chk, out_chk = common.sh(["timeout", "900", "coqchk", "-o", "-silent", "-Q", ".", "RV", "RV.Props.C13"], cwd=common.COQ, timeout=930)
+        clean = rc_chk == 0 and "Axioms: <none>" in out_chk
+        ctx.obligations.append({"name": "coqchk -o RV.Props.C13 (no axioms, no assumed positivity / guard)", "file": "Props/C13.vo",
+                                "ok": clean, "assumptions": [] if clean else None})
+        if not clean:
+            ok_props = False
+            log = out_chk
     if tab is None:
         ctx.obligations.append({"name": "translator tx/evolveentry.py", "file": "tx/evolveentry.py", "ok": False, "assumptions": None})
     else:
@@ -418,7 +432,7 @@ def run(ctx):
     if flags is not None and tab is not None and len(flags) == len(tab["rows"]):
         bad_rows = [tab["rows"][i] for i, f in enumerate(flags) if f == 0]
     # ------------------------------------------------------------------ 3. observation on the real code
-    nprog = {"chain": 200 if quick else 1400, "tree": 90 if quick else 600}
+    nprog = {"chain": 200 if quick else 2000, "tree": 90 if quick else 900}
     programs = []
     for world in ("chain", "tree"):
         # every operation at least once as the first step, then free programs
@@ -487,7 +501,7 @@ def run(ctx):
                 violations.append((p, idx, [v["name"] for v in ob["value_changed"]], ob))
             for a, k in ob.get("cfg_shared", []):
                 cfg_shared[(p["world"], st["op"], a)] = cfg_shared.get((p["world"], st["op"], a), 0) + 1
-            for rf, name, of in ob.get("result_shares", []):
+            for rf, name, of, _slot in ob.get("result_shares", []):
                 label_shared[(p["world"], st["op"], rf, of)] = label_shared.get((p["world"], st["op"], rf, of), 0) + 1
             if st["cat"] == "mutate" and ob.get("target_value_changed"):
                 touched = True
@@ -536,7 +550,7 @@ def run(ctx):
                 sj, oj = p["steps"][j], r_["steps"][j]
                 if not sj["res"]:
                     continue
-                linked = {nm for _, nm, _ in oj.get("result_shares", [])} | set(oj.get("result_is_input") or [])
+                linked = {x[1] for x in oj.get("result_shares", [])} | set(oj.get("result_is_input") or [])
                 pair = {sj["res"]} | linked
                 if st["target"] in pair and any(n_ in pair for n_ in names) and len(pair) > 1:
                     origin = sj
